@@ -29,6 +29,15 @@ func VerifRoot() string {
 	return "/verif"
 }
 
+// OutRoot is where build output, work directories, evidence and witnesses go:
+// /verif normally, or $VERIF_SCRATCH for isolated runs against a scratch copy of the repository.
+func OutRoot() string {
+	if r := os.Getenv("VERIF_SCRATCH"); r != "" {
+		return r
+	}
+	return VerifRoot()
+}
+
 var findingsCache *FindingsFile
 
 // LoadFindings reads known_findings.json (read-only at run time).
